@@ -1,5 +1,6 @@
 import NriModel.Lemmas.StubSession
 import NriModel.Lemmas.StubSessionTrace
+import NriModel.Lemmas.StubSessionAny
 /-!
 Property C16 — starting, stopping and restarting the stub terminates and leaves it usable.
 
@@ -252,6 +253,26 @@ example : (closure (some .stop)
     [{ s := (establish (fresh init)), applied := false }] 8).length = 3 := by decide
 
 /-! ### The code before the patch (witnesses; `unfixed` = all three repairs absent) -/
+
+/-- The one part of C16 that holds in EVERY variant — also of the code before the patch, and
+    also after a `stall`: no session's `onClose` fires twice, a session whose callback ran has
+    no further notification pending, and only sessions that exist are notified. (What the
+    code before the patch does not give is "at least once": `unfixed_start_blocks`.) -/
+theorem C16_onclose_atmost_once_any (v : Variant) (h : List Event) (s : State)
+    (hr : run v init h = some s) (sid : Nat) :
+    s.fired.count sid ≤ 1 ∧ s.fired.count sid + s.inflight.count sid ≤ 1 ∧
+    (sid ∈ s.fired ∨ sid ∈ s.inflight → 1 ≤ sid ∧ sid ≤ s.cur) := by
+  have hb := (book'_run v book'_init h hr).toBook
+  refine ⟨List.nodup_iff_count.mp hb.fired_nodup sid, ?_, ?_⟩
+  · rw [hb.fired_nodup.count, hb.infl_nodup.count]
+    have := hb.disj sid
+    grind
+  · rintro (h1 | h1)
+    · exact hb.fired_rng sid h1
+    · exact hb.infl_rng sid h1
+
+example : ∃ s, run unfixed init [.start .ok .ok, .stop, .start .ok .ok, .closeNotify 1, .closeNotify 2] = some s ∧
+    s.fired = [1, 2] := ⟨_, rfl, rfl⟩
 
 /-- (a) The runtime end answers RegisterPlugin and drops the connection before configuring:
     `Start` can block forever, holding the mutex — no call of the stub is enabled any more
